@@ -190,6 +190,28 @@ def c15_pass(prefix: str) -> List[Dict[str, Any]]:
                                                   declarer=None if d == NOSEAT else Player(d + 1))))
             if not (xx and not x) and b != 35:
                 texts.append((str(Contract(fb, x=x, xx=xx)), po))
+    # contracts DERIVED from another contract that has already been used (printed,
+    # asked for its vulnerability): dataclasses.replace, or rebuilt from its fields
+    import dataclasses
+
+    def derived(base, how, **kw):
+        str(base); base.is_vul() if base.declarer is not None else None     # noqa: E702
+        if how == 'replace':
+            return dataclasses.replace(base, **kw)
+        f = {fl.name: getattr(base, fl.name) for fl in dataclasses.fields(base) if fl.init}
+        f.update(kw)
+        return Contract(**f)
+    for b in range(35):
+        for k_, (x, xx) in enumerate([(False, False), (True, False), (True, True)]):
+            v, d = (b + k_) % 4, (b + 2 * k_) % 4
+            base = Contract.str_to_contract(_fresh(str(Contract(Bid.int_to_bid((b + 7) % 35), x=not x, xx=False))),
+                                            vul=Vul((v + 1) % 4 + 1), declarer=Player((d + 1) % 4 + 1)) \
+                if b % 2 else Contract(Bid.int_to_bid((b + 7) % 35), x=not x, xx=False,
+                                       vul=Vul((v + 1) % 4 + 1), declarer=Player((d + 1) % 4 + 1))
+            how = 'replace' if (b + k_) % 3 else 'fields'
+            R.add('contract.props', {'bid': b, 'x': x, 'xx': xx, 'vul': v, 'decl': d},
+                  lambda: cprops(derived(base, how, final_bid=Bid.int_to_bid(b), x=x, xx=xx,
+                                         vul=Vul(v + 1), declarer=Player(d + 1))))
 
     def cfrom(t, v, d):
         c = Contract.str_to_contract(_fresh(t), vul=Vul(v + 1),
